@@ -62,17 +62,22 @@ Definition holds_fresh {O} (e : O -> O -> bool) (steps : list (O * option O)) : 
 
 (* [holds], second clause (session 5; seeded change C12-r6b paired betas with columns by position
    inside PhenoSimulator.run, so the history object and the fresh object were wrong alike): the
-   result of a read-only by-ID query (PhenoSimulator.run, Haplotypes.transform) is what a search
+   result of a read-only by-ID query (PhenoSimulator.run, Haplotypes.transform), and the copy a
+   non-inplace subset returns, is what a search
    of the IDs the object was observed to hold at that step gives - the abstract step [a_step]
    (no caches, no history) applied to the observed contents.  No judgement when the abstract step
    refuses (duplicate IDs among the observed contents) or the operation raised. *)
 Definition view_ok_gen {T} (rare : T -> Z -> Z -> bool) (file : gtab) (anc legacy : bool)
            (s : xop (gop T) * gobs * option gobs) : bool :=
   match s with
-  | (XOn p, GO t (OView v), _) =>
-      match a_step gtab gview g_ids1 g_ids2 g_sub1 g_sub2 t (g_interp T rare file anc legacy p) with
-      | Ok (_, OView v') => gview_eqb v v'
-      | _ => true
+  | (XOn p, GO t r, _) =>
+      match r with
+      | ONone => true
+      | _ =>   (* a query result, or the copy a non-inplace subset returned: [t] is also the contents before *)
+        match a_step gtab gview g_ids1 g_ids2 g_sub1 g_sub2 t (g_interp T rare file anc legacy p) with
+        | Ok (_, r') => out_eqb gtab_eqb gview_eqb r r'
+        | Err _ => true
+        end
       end
   | _ => true
   end.
